@@ -158,6 +158,24 @@ def bar_loop(ctx):
     t_buy = hours[0]
     closed_attempts = [hours[0] + pd.Timedelta("1min"), hours[0] + pd.Timedelta("30min"), EXP - pd.Timedelta("1min"), EXP + pd.Timedelta("17min")]
 
+    # a further (accepted) trade issued from after_bar of the open bar: whatever it leaves behind in the bar loop's bookkeeping
+    # must not open the market on the closed minute that follows
+    late_write = ctx.flag("trade_in_after_bar_of_the_open_bar")
+    n_attempts = [0]
+
+    def _attempt(d, ts, sell):
+        n_attempts[0] += 1
+        before = (d.balance, {k: v.amount for k, v in d.positions.items()}, len(a._currents.actions))
+        try:
+            if sell:
+                d.sell(name, D(1))
+            else:
+                d.buy(other["name"], D(1))
+            log["closed_ok"].append(ts)
+        except Exception as e:
+            after = (d.balance, {k: v.amount for k, v in d.positions.items()}, len(a._currents.actions))
+            log["closed_errors"].append((ts, type(e).__name__, before, after))
+
     class Script(Strategy):
         def on_bar(self, snapshot):
             d = self.broker.markets[dm.market_info]
@@ -166,20 +184,15 @@ def bar_loop(ctx):
                 d.deposit(D(100))
                 log["buy"] = d.buy(name, n)
             elif ts in closed_attempts:
-                before = (d.balance, {k: v.amount for k, v in d.positions.items()}, len(a._currents.actions))
-                try:
-                    if ts == closed_attempts[1]:
-                        d.sell(name, D(1))
-                    else:
-                        d.buy(other["name"], D(1))
-                    log["closed_ok"].append(ts)
-                except Exception as e:
-                    after = (d.balance, {k: v.amount for k, v in d.positions.items()}, len(a._currents.actions))
-                    log["closed_errors"].append((ts, type(e).__name__, before, after))
+                _attempt(d, ts, ts == closed_attempts[1])
 
         def after_bar(self, snapshot):
             d = self.broker.markets[dm.market_info]
             ts = pd.Timestamp(snapshot.timestamp)
+            if ts == t_buy and late_write:
+                d.buy(other["name"], D(1))
+            elif ts in closed_attempts[:2]:
+                _attempt(d, ts, False)
             log["pos"][ts] = name in d.positions
             log["cash"][ts] = d.balance
 
@@ -194,7 +207,7 @@ def bar_loop(ctx):
     delivered = [x for x in acts if type(x).__name__ == "DeliverAction"]
     expired = [x for x in acts if type(x).__name__ == "ExpiredAction"]
     ctx.outcome(f"ran:deliver={len(delivered)},expired={len(expired)}")
-    ctx.check("trades on bars where the hourly market is closed are rejected", len(log["closed_ok"]) == 0 and len(log["closed_errors"]) == len(closed_attempts))
+    ctx.check("trades on bars where the hourly market is closed are rejected", len(log["closed_ok"]) == 0 and len(log["closed_errors"]) == n_attempts[0] and n_attempts[0] == len(closed_attempts) + 2)
     for ts, en, before, after in log["closed_errors"]:
         ctx.check("a trade rejected on a closed bar is rejected as 'market not open' (DemeterError)", en == "DemeterError")
         ctx.check("a trade rejected on a closed bar changes nothing", sand(before[0] == after[0], before[2] == after[2], all(before[1][k] == after[1].get(k) for k in before[1])))
